@@ -397,7 +397,13 @@ func (st *c07State) addFiles(chs []chunks.Chunk, what string) (accepted bool) {
 				}
 			}
 		}
+		missingEverywhere := false
 		if deps.Size() > 0 {
+			if absentW, werr := st.w.HasMany(bg, deps.Copy()); werr == nil && absentW.Size() > 0 {
+				missingEverywhere = true // not even the writer has them: the files were accepted without their dependencies
+			}
+		}
+		if deps.Size() > 0 && !missingEverywhere {
 			if f, ferr := st.openFresh(); ferr == nil {
 				absent, herr := f.HasMany(bg, deps)
 				f.Close()
@@ -729,7 +735,7 @@ func c07(c *rig.Ctx) {
 			lostRej += st.nLostRefRejected
 			flushes += fl
 		}
-		if len(c07Reported) > 8 {
+		if len(c07Reported) > 14 {
 			return
 		}
 	}
